@@ -79,13 +79,52 @@ Print Assumptions c13_results_order_and_uniqueness.
 (* prepare_for_resubmission: states and counters *)
 Theorem c13_prepare : forall c rerun d, c_complete c = true ->
   exists c', prepare c rerun d = Some c' /\
-    c_complete c' = false /\ c_submitter c' = c_submitter c /\ c_num c' = c_num c /\ c_groups c' = c_groups c /\
+    c_complete c' = false /\ c_canceled c' = false /\ c_submitter c' = c_submitter c /\ c_num c' = c_num c /\ c_groups c' = c_groups c /\
     c_submitted c' = Z.of_nat (length (filter (fun j => negb (memN (s_name j) rerun) && negb (jstate_eqb (s_state j) NOT_SUBMITTED)) (c_jobs c))) /\
     c_completed c' = Z.of_nat (length (filter (fun j => negb (memN (s_name j) rerun) && jstate_eqb (s_state j) DONE) (c_jobs c))) /\
     c_jobs c' = map (prep_job rerun d) (c_jobs c) /\
     map s_name (c_jobs c') = map s_name (c_jobs c).
 Proof. exact prepare_spec. Qed.
 Print Assumptions c13_prepare.
+
+(* whatever was canceled before: the state handed to the submitter lets rounds submit again *)
+Theorem c13_reset_clears_canceled : forall c rerun d c',
+  prepare c rerun d = Some c' -> round_may_submit c' = true.
+Proof. exact prepare_clears_canceled. Qed.
+Print Assumptions c13_reset_clears_canceled.
+
+(* Which jobs the next submitter rounds can put into batches after the reset: exactly the rerun set.
+   HYPOTHESIS (explicit, see c13_offered_exact_refuted): every job outside the rerun set is SUBMITTED or
+   DONE when the command runs.  It excludes the known finding
+   `unselected-never-submitted-jobs-launched-after-cancel`: on a submission canceled by cancel-jobs,
+   jobs that were never submitted stay NOT_SUBMITTED; if the flags do not select them (--no-missing)
+   they are nevertheless offered and launched once the reset has cleared the canceled flag. *)
+Theorem c13_offered_exact : forall c rerun d c',
+  prepare c rerun d = Some c' ->
+  (forall j, In j (c_jobs c) -> ~ In (s_name j) rerun -> s_state j <> NOT_SUBMITTED) ->
+  forall x, In x (offered c') <-> In x rerun /\ In x (map s_name (c_jobs c)).
+Proof. exact offered_exact. Qed.
+Print Assumptions c13_offered_exact.
+
+(* without the hypothesis the statement is false of the code (known finding): user-canceled submission,
+   job 1 failed, jobs 2 and 3 never submitted; `resubmit-jobs --failed --no-missing`: rerun set = {1},
+   but 2 and 3 are offered too (NOT_SUBMITTED, no blockers, and rounds may submit again) *)
+Theorem c13_offered_exact_refuted : exists c rerun d c',
+  c_complete c = true /\ c_canceled c = true /\ prepare c rerun d = Some c' /\ round_may_submit c' = true /\
+  exists j, In j (c_jobs c') /\ s_state j = NOT_SUBMITTED /\ s_blocked j = [] /\ In (s_name j) (offered c') /\
+            ~ In (s_name j) rerun.
+Proof.
+  exists {| c_submitter := Some 77%N; c_complete := true; c_canceled := true; c_num := 3; c_submitted := 1;
+            c_completed := 1; c_groups := [(1, 1)]%N;
+            c_jobs := [ {| s_name := 1; s_state := DONE; s_blocked := [] |};
+                        {| s_name := 2; s_state := NOT_SUBMITTED; s_blocked := [] |};
+                        {| s_name := 3; s_state := NOT_SUBMITTED; s_blocked := [] |} ]%N |}, [1%N], [].
+  eexists. split; [reflexivity|]. split; [reflexivity|]. split; [reflexivity|]. split; [reflexivity|].
+  exists {| s_name := 2%N; s_state := NOT_SUBMITTED; s_blocked := [] |}.
+  split; [cbn; tauto|]. split; [reflexivity|]. split; [reflexivity|]. split; [cbn; tauto|].
+  cbn. intros [H|[]]. discriminate H.
+Qed.
+Print Assumptions c13_offered_exact_refuted.
 
 Theorem c13_prepare_untouched : forall rerun d j, ~ In (s_name j) rerun -> prep_job rerun d j = j.
 Proof. exact prep_job_other. Qed.
@@ -177,7 +216,7 @@ Definition ex_config : list cjob :=
   [ {| cj_name := 1; cj_deps := [] |}; {| cj_name := 2; cj_deps := [1] |}; {| cj_name := 3; cj_deps := [2] |};
     {| cj_name := 4; cj_deps := [] |}; {| cj_name := 5; cj_deps := [4] |} ]%N.
 Definition ex_cluster (sub : option N) (complete : bool) : cluster :=
-  {| c_submitter := sub; c_complete := complete; c_num := 5; c_submitted := 5; c_completed := 4;
+  {| c_submitter := sub; c_complete := complete; c_canceled := false; c_num := 5; c_submitted := 5; c_completed := 4;
      c_groups := [(1, 1)]%N;
      c_jobs := [ {| s_name := 1; s_state := DONE; s_blocked := [] |}; {| s_name := 2; s_state := DONE; s_blocked := [] |};
                  {| s_name := 3; s_state := DONE; s_blocked := [] |}; {| s_name := 4; s_state := DONE; s_blocked := [] |};
@@ -190,7 +229,7 @@ Definition ex_world (sub : option N) (complete : bool) (ev : option (list N)) : 
 Example c13_ex_command_default_flags_no_events_dir :
   resubmit 77 true true false None FNone (fun w => w) 0 (ex_world None true None) =
   (Exit 0,
-   {| w_cluster := {| c_submitter := None; c_complete := false; c_num := 5; c_submitted := 1; c_completed := 1;
+   {| w_cluster := {| c_submitter := None; c_complete := false; c_canceled := false; c_num := 5; c_submitted := 1; c_completed := 1;
                       c_groups := [(1, 1)]%N;
                       c_jobs := [ {| s_name := 1; s_state := NOT_SUBMITTED; s_blocked := [] |};
                                   {| s_name := 2; s_state := NOT_SUBMITTED; s_blocked := [1] |};
@@ -211,6 +250,25 @@ Example c13_ex_load_fails :
   c_submitter (w_cluster (snd (resubmit 77 true true false None FLoad (fun w => w) 0 (ex_world None true (Some [1%N]))))) = None
   /\ fst (resubmit 77 true true false None FLoad (fun w => w) 0 (ex_world None true (Some [1%N]))) = Raised FLoad.
 Proof. vm_compute. split; reflexivity. Qed.
+
+(* a submission canceled with cancel-jobs and then completed (1 failed, 2 and 3 never submitted):
+   after resubmit-jobs the canceled flag is gone, so the next submitter round may submit again
+   (before commit 34e0409 the flag stayed: results erased and nothing rerun) *)
+Example c13_ex_canceled_submission :
+  let w := {| w_cluster := {| c_submitter := None; c_complete := true; c_canceled := true; c_num := 3; c_submitted := 1;
+                              c_completed := 1; c_groups := [(1, 1)]%N;
+                              c_jobs := [ {| s_name := 1; s_state := DONE; s_blocked := [] |};
+                                          {| s_name := 2; s_state := NOT_SUBMITTED; s_blocked := [] |};
+                                          {| s_name := 3; s_state := NOT_SUBMITTED; s_blocked := [] |} ]%N |};
+              w_rows := [ {| r_name := 1; r_rc := 1; r_status := 0; r_exec := 5; r_ctime := 100; r_hpc := Some 100%N |} ]%N%Z;
+              w_results := [ {| r_name := 1; r_rc := 1; r_status := 0; r_exec := 5; r_ctime := 100; r_hpc := Some 100%N |} ]%N%Z;
+              w_config := [ {| cj_name := 1; cj_deps := [] |}; {| cj_name := 2; cj_deps := [] |}; {| cj_name := 3; cj_deps := [] |} ]%N;
+              w_events := None |} in
+  let r := resubmit 77 true true false None FNone (fun w => w) 0 w in
+  fst r = Exit 0 /\ round_may_submit (w_cluster (snd r)) = true /\ w_rows (snd r) = [] /\
+  map s_state (c_jobs (w_cluster (snd r))) = [NOT_SUBMITTED; NOT_SUBMITTED; NOT_SUBMITTED] /\
+  c_submitted (w_cluster (snd r)) = 0%Z.
+Proof. vm_compute. repeat split. Qed.
 
 (* the window that remains: an I/O error while the cluster state is rewritten or while the old
    event files are deleted leaves the role taken and the rows pruned (limit of c13_failure_recoverable) *)
